@@ -116,6 +116,33 @@ class Anchors:
                             self.retire_guard[b.id] = gk
         if not self.retire_fns:
             raise AnchorError("no retire function found (nothing passes a parameter to seize defer_retire)")
+        # wrappers: functions that hand (something reached from) their own parameter to a retire function, with their own guard parameter
+        changed = True
+        while changed:
+            changed = False
+            for b in self.facts.bodies:
+                if b.id in self.retire_fns or b.kind == "Closure" or b.exported:
+                    continue
+                fl = flow(b)
+                for c in b.calls:
+                    r = c.resolved
+                    if r not in self.retire_fns or b.is_cleanup(c.b):
+                        continue
+                    pk, gk = self.retire_fns[r], self.retire_guard.get(r)
+                    if pk - 1 >= len(c.args) or not gk or gk - 1 >= len(c.args):
+                        continue
+                    pl, gl = op_root(c.args[pk - 1]), op_root(c.args[gk - 1])
+                    if pl is None or gl is None:
+                        continue
+                    roots, _ = fl.roots(pl)
+                    pks = [x[1] for x in roots if x[0] == "arg"]
+                    gks = [k for k in range(1, b.nargs + 1) if fl.derives_from_arg(gl, k)]
+                    # only pure wrappers: the retired pointer *is* a parameter (not something loaded from it) and the body unlinks nothing itself
+                    writes = [x for x in b.calls if is_shared_write(x)]
+                    if len(pks) == 1 and all(x[0] == "arg" for x in roots) and gks and not writes:
+                        self.retire_fns[b.id] = pks[0]
+                        self.retire_guard[b.id] = gks[0]
+                        changed = True
 
     def _find_free(self):
         # direct: Box::from_raw on a parameter-derived pointer; then wrappers, to a fixpoint
